@@ -323,6 +323,10 @@ def replay_cases(binary, cases, nproc=None, timeout=900, env=None, args=(), max_
             per_case[0] = max(0.05, min(dt, 60.0) / len(seen))
         if rc != 0 or len(seen) != len(shard):
             rest = [c for c in shard if c["id"] not in seen]
+            # the harness's own per-case watchdog (VH_CASE_TIMEOUT) reported the case as "hang" and left: that record stands
+            hang = rc == 3 and res and str(res[-1].get("note", "")).startswith("hang")
+            if hang and not rest:
+                return res
             if len(shard) == 1:
                 kind = "timeout" if rc == -999 else ("sanitizer" if rc in (97, 98) or "Sanitizer" in se or "runtime error" in se else "crash")
                 # one more run of this single case with step markers to learn where it died
